@@ -65,7 +65,7 @@ def run(ctx):
                    "composition of results is decided by execution on sampled inputs (minifiber) against the chained dense oracle"]
     rng = random.Random(ctx.seed * 8191 + 5)
     k = 1 if ctx.tier == "quick" else 8
-    recs = pool.collect(ctx, [dict(gen="g5", count=60 * k, modes=["plain"], nexec=2), dict(gen="g5conv", count=20 * k, modes=["plain"], nexec=2), dict(gen="g5conv2", count=12 * k, modes=["plain"], nexec=0), dict(gen="g2casc", count=15 * k, modes=["plain"], nexec=2),
+    recs = pool.collect(ctx, [dict(gen="g5", count=60 * k, modes=["plain"], nexec=2), dict(gen="g5conv", count=20 * k, modes=["plain"], nexec=2), dict(gen="g5conv2", count=12 * k, modes=["plain"], nexec=0), dict(gen="g2casc", count=15 * k, modes=["plain"], nexec=2), dict(gen="g5flat", count=20 * k, modes=["plain"], nexec=2),
                               dict(gen="g5", count=20 * k, modes=["spacetime"], nexec=0)])
     reqs, metas = [], []
     for r in recs:
